@@ -47,14 +47,14 @@ theorem markSent_length (db : DB) (y : Id) : (db.markSent y).entries.length = db
 
 /-- same LIB and the same stored blocks in the same order (only the sent marks may differ) -/
 def SameBlks (db db' : DB) : Prop :=
-  db'.libRef = db.libRef ∧ db'.entries.map (·.blk) = db.entries.map (·.blk)
+  db'.libRef = db.libRef ∧ db'.entries.map (·.blk) = db.entries.map (·.blk) ∧ db'.initNum = db.initNum
 
-theorem SameBlks.refl (db : DB) : SameBlks db db := ⟨rfl, rfl⟩
+theorem SameBlks.refl (db : DB) : SameBlks db db := ⟨rfl, rfl, rfl⟩
 theorem SameBlks.trans {a b c : DB} (h1 : SameBlks a b) (h2 : SameBlks b c) : SameBlks a c :=
-  ⟨h2.1.trans h1.1, h2.2.trans h1.2⟩
+  ⟨h2.1.trans h1.1, h2.2.1.trans h1.2.1, h2.2.2.trans h1.2.2⟩
 
 theorem sameBlks_markSent (db : DB) (y : Id) : SameBlks db (db.markSent y) := by
-  refine ⟨rfl, ?_⟩
+  refine ⟨rfl, ?_, rfl⟩
   simp only [DB.markSent, List.map_map]
   apply List.map_congr_left
   intro e _
@@ -69,7 +69,7 @@ theorem find_blk (db : DB) (x : Id) :
 
 theorem SameBlks.find_blk {db db' : DB} (h : SameBlks db db') (x : Id) :
     (db'.find x).map (·.blk) = (db.find x).map (·.blk) := by
-  rw [ForkDB.find_blk, ForkDB.find_blk, h.2]
+  rw [ForkDB.find_blk, ForkDB.find_blk, h.2.1]
 
 theorem SameBlks.link {db db' : DB} (h : SameBlks db db') (x : Id) : db'.link x = db.link x := by
   have := h.find_blk x
@@ -89,15 +89,38 @@ theorem SameBlks.isPath {db db' : DB} (h : SameBlks db db') (bottom : Id) (ids :
   | cons i r ih => simp only [IsPath, h.link, h.find_isSome, ih]
 
 theorem SameBlks.length {db db' : DB} (h : SameBlks db db') : db'.entries.length = db.entries.length := by
-  have := congrArg List.length h.2
+  have := congrArg List.length h.2.1
   simpa using this
 
 theorem SameBlks.mem_blk {db db' : DB} (h : SameBlks db db') (e : Entry) (he : e ∈ db'.entries) :
     ∃ e0 ∈ db.entries, e0.blk = e.blk := by
   have : e.blk ∈ db'.entries.map (·.blk) := List.mem_map.mpr ⟨e, he, rfl⟩
-  rw [h.2] at this
+  rw [h.2.1] at this
   obtain ⟨e0, h0, h1⟩ := List.mem_map.mp this
   exact ⟨e0, h0, h1⟩
+
+theorem SameBlks.numOf? {db db' : DB} (h : SameBlks db db') (x : Id) : db'.numOf? x = db.numOf? x := by
+  have := h.find_blk x
+  unfold DB.numOf?
+  rw [h.2.2]
+  cases h1 : db'.find x <;> cases h2 : db.find x <;> simp [h1, h2] at this ⊢
+  rw [this]
+
+theorem SameBlks.blockInChainAux {db db' : DB} (h : SameBlks db db') (t fuel : Nat) (cur : Id) (n : Nat) :
+    db'.blockInChainAux t fuel cur n = db.blockInChainAux t fuel cur n := by
+  induction fuel generalizing cur n with
+  | zero => rfl
+  | succ k ih =>
+    unfold DB.blockInChainAux
+    simp only [h.link, h.numOf?]
+    cases db.numOf? (db.link cur) with
+    | none => rfl
+    | some pn => simp only [ih]
+
+theorem SameBlks.blockInChain {db db' : DB} (h : SameBlks db db') (start : Ref) (t : Nat) :
+    db'.blockInChain start t = db.blockInChain start t := by
+  unfold DB.blockInChain
+  rw [h.blockInChainAux, h.length]
 
 /-! ### addLink of a block that is not stored -/
 
